@@ -6,4 +6,6 @@ export CARGO_NET_OFFLINE=true
 unset RUSTC_WRAPPER
 mkdir -p "$ROOT/target" "$ROOT/evidence"
 cd "$ROOT/harness"
-cargo build --profile verif -p vcheck 2>&1 | tail -3
+for pkg in vcheck chk_srv; do
+  cargo build --profile verif -p "$pkg" 2>&1 | tail -2
+done
